@@ -105,8 +105,9 @@ type solveStats struct {
 func discharge(obls []*Obligation, scratch string, timeout int, thorough bool) *solveStats {
 	st := &solveStats{bySolver: map[string]int{}}
 	type job struct {
-		file string
-		obs  []*Obligation
+		file  string
+		light string
+		obs   []*Obligation
 		probe bool
 	}
 	byHash := map[string]*job{}
@@ -125,6 +126,10 @@ func discharge(obls []*Obligation, scratch string, timeout int, thorough bool) *
 			byHash[h] = j
 			jobs = append(jobs, j)
 			_ = os.WriteFile(j.file, []byte(o.SMT), 0o644)
+			if o.SMTLight != "" {
+				j.light = filepath.Join(scratch, h+".light.smt2")
+				_ = os.WriteFile(j.light, []byte(o.SMTLight), 0o644)
+			}
 		}
 		j.obs = append(j.obs, o)
 	}
@@ -138,12 +143,26 @@ func discharge(obls []*Obligation, scratch string, timeout int, thorough bool) *
 			defer wg.Done()
 			sem <- struct{}{}
 			defer func() { <-sem }()
-			// stage 1: one fast solver
-			r := race(j.file, solvers[:1], 3)
-			if r.status != "unsat" && r.status != "sat" {
-				r2 := race(j.file, solvers, timeout)
-				r2.secs += r.secs
-				r = r2
+			var r solveResult
+			pre := 0.0
+			if j.light != "" && !j.probe {
+				// stage 0: without quantifier-instantiation axioms (fewer hypotheses; unsat is still sound)
+				r0 := race(j.light, solvers[:1], 2)
+				pre = r0.secs
+				if r0.status == "unsat" {
+					r = r0
+					r.solver += "(light)"
+				}
+			}
+			if r.status == "" {
+				// stage 1: one fast solver
+				r = race(j.file, solvers[:1], 3)
+				if r.status != "unsat" && r.status != "sat" {
+					r2 := race(j.file, solvers, timeout)
+					r2.secs += r.secs
+					r = r2
+				}
+				r.secs += pre
 			}
 			if thorough && (r.status == "unsat" || r.status == "sat") {
 				// cross-check: no other solver may give the opposite answer
@@ -180,6 +199,31 @@ func discharge(obls []*Obligation, scratch string, timeout int, thorough bool) *
 		}(j)
 	}
 	wg.Wait()
+	// inconclusive results are retried alone (no competition for cores) with a longer limit, so that
+	// machine load never turns a provable obligation into an alarm
+	for _, j := range jobs {
+		if len(j.obs) == 0 || j.probe {
+			continue
+		}
+		s0 := j.obs[0].Status
+		if s0 == "unsat" || s0 == "sat" || s0 == "disagree" {
+			continue
+		}
+		r := race(j.file, solvers, timeout*4)
+		st.secs += r.secs
+		if r.status == "unsat" || r.status == "sat" {
+			model := ""
+			if r.status == "sat" {
+				model = getModel(j.file, r.solver)
+			}
+			for _, o := range j.obs {
+				o.Status, o.Solver, o.Secs, o.Model = r.status, r.solver+"(retry)", r.secs, model
+				if r.status == "unsat" {
+					st.bySolver[r.solver]++
+				}
+			}
+		}
+	}
 	return st
 }
 
